@@ -471,3 +471,165 @@ func (e *engine) movedObls(prop string) []*obligation {
 	}
 	return out
 }
+
+// sharedObls: a value of a `shared` type is reachable from every goroutine of a run. After start-up (outside the
+// `atomicinit` functions) each of its fields is either never written, or written through sync/atomic only, or written
+// by its declared sole writer only. One obligation per field.
+func (e *engine) sharedObls(prop string) []*obligation {
+	var out []*obligation
+	fns := e.moduleFunctions()
+	var types_ []string
+	for t := range e.w.db.Shared {
+		types_ = append(types_, t)
+	}
+	sort.Strings(types_)
+	for _, tn := range types_ {
+		var st *types.Struct
+		for _, fn := range fns {
+			for _, b := range fn.Blocks {
+				for _, ins := range b.Instrs {
+					if fa, ok := ins.(*ssa.FieldAddr); ok {
+						if k, ok := fieldOfAddr(fa); ok && k.typ == tn {
+							st = fa.X.Type().Underlying().(*types.Pointer).Elem().Underlying().(*types.Struct)
+						}
+					}
+				}
+			}
+		}
+		if st == nil {
+			out = append(out, &obligation{Func: "module", Name: "module/shared/" + tn, Kind: "frame", Label: prop + ".shared", Props: []string{prop}, Clause: "shared type " + tn + " has fields", Status: "refuted", Output: "static access scan: no field access of this type found (renamed?)"})
+			continue
+		}
+		for i := 0; i < st.NumFields(); i++ {
+			fname := st.Field(i).Name()
+			sole := e.w.db.SoleWriter[tn+"."+fname]
+			o := &obligation{Func: "module", Name: "module/shared/" + tn + "." + fname, Kind: "frame", Label: prop + ".shared", Props: []string{prop},
+				Clause: "the field " + tn + "." + fname + " of the run-wide shared object is written, once goroutines run, only through sync/atomic" + map[bool]string{true: " or by its sole writer " + sole, false: ""}[sole != ""]}
+			var bad []string
+			for _, fn := range fns {
+				if e.w.db.AtomicInit[fn.String()] || (sole != "" && fn.String() == sole) || !e.goReachable()[fn] {
+					continue
+				}
+				for _, b := range fn.Blocks {
+					for _, ins := range b.Instrs {
+						x, ok := ins.(*ssa.Store)
+						if !ok {
+							continue
+						}
+						hit := false
+						for _, k := range fieldsOnPath(x.Addr) {
+							if k.typ == tn && k.name == fname {
+								hit = true
+							}
+						}
+						if !hit {
+							continue
+						}
+						if isLocalAlloc(x.Addr) || e.madeHere(x.Addr) {
+							continue
+						}
+						bad = append(bad, "plain write in "+fn.String()+" at "+e.posOf(ins.Pos()))
+					}
+				}
+			}
+			if len(bad) == 0 {
+				o.Status, o.Solver, o.Output = "discharged", "static access scan", "static access scan: no plain write outside start-up"
+			} else {
+				sort.Strings(bad)
+				o.Status, o.Output = "refuted", "static access scan: "+strings.Join(bad, "; ")
+			}
+			out = append(out, o)
+		}
+	}
+	return out
+}
+
+// fieldsOnPath: the struct fields an address lies inside (x.f, x.f.g, x.f[i], ... all lie inside x.f).
+func fieldsOnPath(v ssa.Value) []fieldKey {
+	var out []fieldKey
+	for i := 0; i < 10 && v != nil; i++ {
+		switch x := v.(type) {
+		case *ssa.FieldAddr:
+			if k, ok := fieldOfAddr(x); ok {
+				out = append(out, k)
+			}
+			v = x.X
+		case *ssa.IndexAddr:
+			if _, isPtr := x.X.Type().Underlying().(*types.Pointer); !isPtr {
+				return out // an element of a slice: another object
+			}
+			v = x.X
+		default:
+			return out
+		}
+	}
+	return out
+}
+
+// goReachable: the functions that can run on a goroutine other than the driver's - everything reachable (static calls,
+// interface dispatch into module types, function values, closures created on the way) from the target of a go statement.
+func (e *engine) goReachable() map[*ssa.Function]bool {
+	if e.goReach != nil {
+		return e.goReach
+	}
+	reach := map[*ssa.Function]bool{}
+	var work []*ssa.Function
+	add := func(f *ssa.Function) {
+		if f != nil && f.Blocks != nil && !reach[f] {
+			reach[f] = true
+			work = append(work, f)
+		}
+	}
+	for _, fn := range e.moduleFunctions() {
+		for _, b := range fn.Blocks {
+			for _, ins := range b.Instrs {
+				if g, ok := ins.(*ssa.Go); ok {
+					fs, _ := e.ma.callees(g.Common())
+					for _, f := range fs {
+						add(f)
+					}
+				}
+			}
+		}
+	}
+	for len(work) > 0 {
+		fn := work[len(work)-1]
+		work = work[:len(work)-1]
+		for _, b := range fn.Blocks {
+			for _, ins := range b.Instrs {
+				switch x := ins.(type) {
+				case *ssa.MakeClosure:
+					add(x.Fn.(*ssa.Function))
+				case ssa.CallInstruction:
+					fs, _ := e.ma.callees(x.Common())
+					for _, f := range fs {
+						add(f)
+					}
+				}
+			}
+		}
+	}
+	e.goReach = reach
+	return reach
+}
+
+// madeHere: the address lies in an object this function has just obtained from a start-up function (`atomicinit`, e.g.
+// the constructor NewRuntimeEnvironment): no other goroutine knows it yet.
+func (e *engine) madeHere(v ssa.Value) bool {
+	for i := 0; i < 10 && v != nil; i++ {
+		switch x := v.(type) {
+		case *ssa.FieldAddr:
+			v = x.X
+		case *ssa.IndexAddr:
+			v = x.X
+		case *ssa.Extract:
+			v = x.Tuple
+		case *ssa.Call:
+			f := x.Call.StaticCallee()
+			return f != nil && e.w.db.AtomicInit[f.String()]
+		default:
+			return false
+		}
+	}
+	return false
+}
